@@ -49,3 +49,13 @@ Fixpoint mismatches {I O} (eqb : O -> O -> bool) (f : I -> O) (cases : list (nat
   | [] => []
   | (i, x, o) :: r => if eqb (f x) o then mismatches eqb f r else i :: mismatches eqb f r
   end.
+
+(* the result of a call that returns nothing: normal return or the class of the exception *)
+Inductive res_kind := RK_ok | RK_err (e : errkind) | RK_crash (c : crashkind).
+Definition res_kind_eqb (a b : res_kind) : bool :=
+  match a, b with
+  | RK_ok, RK_ok => true
+  | RK_err x, RK_err y => errkind_eqb x y
+  | RK_crash x, RK_crash y => crashkind_eqb x y
+  | _, _ => false
+  end.
